@@ -435,6 +435,7 @@ type ixPart struct {
 
 type ixPrediction struct {
 	D    string   `json:"d"`
+	R    string   `json:"r"` // regression entries: the classes of d that belong to repaired findings
 	IDs  []int    `json:"ids"`
 	Part []ixPart `json:"part"`
 }
@@ -445,6 +446,7 @@ type ixLeaf struct {
 	IDs  []int           `json:"ids"`
 	Part []ixPart        `json:"part"`
 	DSel []ixPrediction  `json:"dsel"`
+	RSel []ixPrediction  `json:"rsel"` // what the code would answer if the repair of a deviation class were lost
 }
 
 type ixQuery struct {
@@ -455,8 +457,10 @@ type ixQuery struct {
 	TK    []string              `json:"tk"`
 	TV    map[string][][]string `json:"tv"`
 	TVN   []int                 `json:"tvn"`
-	DShow []ixPrediction        `json:"dshow"`
+	DShow []ixPrediction        `json:"dshow"` // predictions of the deviation classes of the OPEN findings
 	DSel  []ixPrediction        `json:"dsel"`
+	RShow []ixPrediction        `json:"rshow"` // predictions of class sets holding a REPAIRED class (regressions)
+	RSel  []ixPrediction        `json:"rsel"`
 	LV    []ixLeaf              `json:"lv"`
 }
 
@@ -486,6 +490,7 @@ type ixResult struct {
 	Known    string            `json:"known,omitempty"` // comma separated finding ids re-observed in this case
 	KnownN   map[string]int    `json:"known_n,omitempty"`
 	KnownEx  map[string]string `json:"known_ex,omitempty"`
+	Regress  []string          `json:"regress,omitempty"` // repaired findings whose deviation model the violating result equals
 	Lookups  int               `json:"lookups"`
 	Searches int               `json:"searches"` // predicates evaluated (each on all entry points)
 	Compared int               `json:"compared"` // entry-point results compared
@@ -493,11 +498,19 @@ type ixResult struct {
 	Conc     string            `json:"conc,omitempty"`
 }
 
-// finding ids of the deviation classes of SeriesIndex.tla
+// finding ids of the deviation classes of SeriesIndex.tla. Which of them are still open is decided by the
+// specification's constant OpenClasses (props/c10.py, from known_findings.json): the classes of open findings arrive
+// as dshow/dsel (a match is a re-observation), sets holding a repaired class as rshow/rsel (a match is a regression).
 var classFinding = map[byte]string{'S': "F-C10-1", 'L': "F-C10-2", 'E': "F-C10-3", 'N': "F-C10-4", 'C': "F-C10-5"}
 
+// The other predictors (F-C10-6-ClearCache, F-C10-7, F-C10-8, F-C10-9) record a match under the finding's id; props/c10.py
+// tolerates it only while the id is an open entry of known_findings.json and reports it as a REGRESSION once the
+// entry is listed as fixed.
 const (
-	findLookup  = "F-C10-6"
+	// lookup_misses_pending as the specification models it: the key->id cache is dropped by ClearCache while the
+	// items of the series are not flushed. The finding's other window (LRU eviction of the cache entry, which stays
+	// open as F-C10-6) has no action in the specification: nothing is attributed to it.
+	findLookup  = "F-C10-6-ClearCache"
 	findTagKeys = "F-C10-7"
 	findAlias   = "F-C10-8"
 	findPrune   = "F-C10-9"
@@ -1001,27 +1014,57 @@ func dedup(a []string) []string {
 	return out
 }
 
-// explain picks the model (the design, or the smallest set of deviation classes) that explains a real result:
-// (true, "", "") = the specification's set; (true, classes, "") = exactly the prediction of these deviation
-// classes; (false, ..) = neither.
-func (r *ixReplay) explain(got, want []uint64, preds []ixPrediction) (bool, string, string) {
+// explain picks the model that explains a real result:
+//
+//	(true, "", nil, "")   the specification's set
+//	(true, d, nil, "")    exactly the prediction of the deviation classes d of OPEN findings (the smallest such set)
+//	(false, "", p, why)   neither, but exactly what the code would answer without the repair of the classes p.R
+//	                      (entry p of regr): a regression of the repaired findings of p.R
+//	(false, "", nil, why) neither
+//
+// The open predictions are tried first: a result an open finding explains is never blamed on a repaired one.
+func (r *ixReplay) explain(got, want []uint64, preds, regr []ixPrediction) (bool, string, *ixPrediction, string) {
 	if eqU64(got, want) {
-		return true, "", ""
+		return true, "", nil, ""
 	}
-	best := ""
-	for _, p := range preds {
-		ps, err := r.realSet(p.IDs, p.Part)
-		if err != nil {
-			continue
+	pick := func(preds []ixPrediction) *ixPrediction {
+		var best *ixPrediction
+		for i := range preds {
+			p := &preds[i]
+			ps, err := r.realSet(p.IDs, p.Part)
+			if err != nil {
+				continue
+			}
+			if eqU64(got, ps) && (best == nil || len(p.D) < len(best.D)) {
+				best = p
+			}
 		}
-		if eqU64(got, ps) && (best == "" || len(p.D) < len(best)) {
-			best = p.D
+		return best
+	}
+	if best := pick(preds); best != nil {
+		return true, best.D, nil, ""
+	}
+	return false, "", pick(regr), r.diffNames(got, want)
+}
+
+// regression renders the violation for a result that equals the prediction p of a class set holding repaired
+// deviation classes (p.R), and records their findings for the summary of props/c10.py
+func (r *ixReplay) regression(p *ixPrediction, why string) string {
+	rep := p.R
+	if rep == "" {
+		rep = p.D
+	}
+	fs := classFindings(rep)
+	for _, f := range fs {
+		seen := false
+		for _, o := range r.res.Regress {
+			seen = seen || o == f
+		}
+		if !seen {
+			r.res.Regress = append(r.res.Regress, f)
 		}
 	}
-	if best != "" {
-		return true, best, ""
-	}
-	return false, "", r.diffNames(got, want)
+	return fmt.Sprintf("%s -- REGRESSION: exactly the answer of the code before the repair of %s (prediction of the deviation classes %s of SeriesIndex.tla; %s belong to repaired findings and are no longer tolerated)", why, strings.Join(fs, ", "), p.D, rep)
 }
 
 func (r *ixReplay) search(st *ixStep) string {
@@ -1059,8 +1102,11 @@ func (r *ixReplay) search(st *ixStep) string {
 			return where + ": SearchSeriesByTableAndCond: " + err.Error()
 		}
 		r.res.Compared++
-		ok, dshow, why := r.explain(gotShow, want, q.DShow)
+		ok, dshow, rshow, why := r.explain(gotShow, want, q.DShow, q.RShow)
 		if !ok {
+			if rshow != nil {
+				why = r.regression(rshow, why)
+			}
 			return where + ": SHOW path (searchTSIDs) " + why
 		}
 		if dshow != "" {
@@ -1090,7 +1136,7 @@ func (r *ixReplay) search(st *ixStep) string {
 		// pending, so dropping the caches is invisible to the specification); the pass in sequence order with the
 		// cache kept follows the batch
 		// (3a) every leaf of the tree is a search of its own with its own expectation
-		hq := histQuery{mst: mst, text: text, where: where, want: want, dsel: q.DSel}
+		hq := histQuery{mst: mst, text: text, where: where, want: want, dsel: q.DSel, rsel: q.RSel}
 		for li := range q.LV {
 			lf := &q.LV[li]
 			ltext, err := r.c.cond(lf.P)
@@ -1108,8 +1154,11 @@ func (r *ixReplay) search(st *ixStep) string {
 				return where + ": SearchSeriesWithOpts (its leaf " + ltext + " searched on its own): " + err.Error()
 			}
 			r.res.Compared++
-			ok, dl, why := r.explain(lgot, lwant, lf.DSel)
+			ok, dl, rl, why := r.explain(lgot, lwant, lf.DSel, lf.RSel)
 			if !ok {
+				if rl != nil {
+					why = r.regression(rl, why)
+				}
 				return fmt.Sprintf("%s: its leaf %s searched on its own (SELECT path) %s", where, strings.Trim(fmt.Sprintf("%q", ltext), `"`), why)
 			}
 			if dl != "" {
@@ -1239,7 +1288,10 @@ func clipList(a []string) string {
 	return fmt.Sprintf("%q ... (%d in all)", a[:10], len(a))
 }
 
-// ---- the tag-filter result cache of the SELECT path (known finding F-C10-8) ---------------------------
+// ---- the tag-filter result cache of the SELECT path (finding F-C10-8) ---------------------------------
+// (The model below is the code BEFORE the repair of F-C10-8 - tf.value is now left as written, so the cache key tells
+// /a\|/ and /a|/ apart. It stays as the regression detector: a result that equals its prediction is recorded under
+// F-C10-8, which props/c10.py turns into a violation as long as the entry is listed as fixed.)
 // Model: leaf results are cached under (measurement, tag key, VALUE AS REWRITTEN BY tagFilter.Init, negative,
 // regexp); InfluxRegrep replaces the text of a pure-literal expression by the unescaped literal, so /a\|/ and
 // /a|/ share an entry. Only non-empty results are served from the cache. The prediction of a query in
@@ -1251,6 +1303,7 @@ type histQuery struct {
 	iso              []uint64       // result with an empty tag-filter cache (already judged)
 	want             []uint64       // the specification's set
 	dsel             []ixPrediction // predictions of the deviation models of the open findings
+	rsel             []ixPrediction // predictions of class sets holding the class of a repaired finding
 	leafFindings     []string       // findings the isolated results of its leaves were attributed to
 }
 
@@ -1258,7 +1311,7 @@ type histQuery struct {
 // of the position in the sequence). "" = the specification's set, or exactly the prediction of an open finding's
 // deviation model (recorded); otherwise the violation text.
 func (r *ixReplay) judgeSelect(h *histQuery, got []uint64, leafIso map[string][]uint64, phase string) string {
-	ok, d, why := r.explain(got, h.want, h.dsel)
+	ok, d, regr, why := r.explain(got, h.want, h.dsel, h.rsel)
 	if ok {
 		for _, f := range classFindings(d) {
 			r.known(f, fmt.Sprintf("%s: SELECT path%s selects %q, unanchored/absent-as-empty evaluation selects %q (deviation classes %s)", h.where, phase, r.names(got), r.names(h.want), d))
@@ -1283,6 +1336,10 @@ func (r *ixReplay) judgeSelect(h *histQuery, got []uint64, leafIso map[string][]
 			}
 		}
 	}
+	// nothing an open finding predicts: is it what the code answered before a repair?
+	if regr != nil {
+		why = r.regression(regr, why)
+	}
 	return h.where + ": SELECT path (SearchSeriesWithOpts)" + phase + " " + why
 }
 
@@ -1300,7 +1357,7 @@ func (r *ixReplay) judgePanic(h *histQuery, pn *ixPanic, phase string) string {
 	return h.where + ": SELECT path (SearchSeriesWithOpts)" + phase + ": " + pn.Error()
 }
 
-// ---- the prune path of the SELECT path (known finding F-C10-9) -------------------------------------------
+// ---- the prune path of the SELECT path (finding F-C10-9, repaired; kept as the regression detector) ------------
 // seriesByExprIterator hands every maximal conjunction of tag comparisons to seriesByTagFilters. With the tag-filter
 // COST cache filled by earlier searches, a filter whose cost is more than 10x the size of the running result is
 // not looked up in the index but applied to the candidate series by doPrune -> matchSeriesKeyTagFilter: the tag
@@ -1704,7 +1761,7 @@ func modelEval(mst string, e influxql.Expr, leafIso, cache map[string][]uint64) 
 // historyPass runs the searches of the sequence once more, in order, keeping the tag-filter cache (and the
 // tag-filter cost cache) between them. A search is a function of (index contents, predicate): every result must
 // again be the specification's set, or exactly what the deviation model of an open finding predicts:
-//   - the class models of SeriesIndex.tla (dsel), as for every other search; the real code may legitimately switch
+//   - the class models of SeriesIndex.tla (dsel: classes of open findings only), as for every other search; the real code may switch
 //     between the design result and such a prediction from one execution to the next (once the cost of a filter is
 //     known, seriesByTagFilters applies it by doPrune = true regexp matching instead of the as-implemented index scan);
 //   - F-C10-8: the set algebra over the isolated leaf results with leaves served from the model cache. This predictor
